@@ -1163,6 +1163,10 @@ func init() {
 				"https://[2001:db8::1]:9090/", "https://xn--bcher-kva.example/ä", "mailto:registry@example.org", "https://127.0.0.1", "/", "a:b", "https://foo.bar/" + strings.Repeat("seg/", g.R.Range(20, 300)),
 				"https://foo.bar/?u=" + fmt.Sprint(g.next())})
 		}
+		if g.R.Chance(0.02) && !g.P.AvoidKnown {
+			g.W.Probe("text_field_with_invalid_utf8")
+			url = "https://foo.bar/\xff\xfe"
+		}
 		if len(v.Resolvers) > 0 && g.R.Chance(0.3) {
 			// the URL of an existing resolver: several resolvers (public and managed) may share one URL
 			url = v.Resolvers[g.R.Intn(len(v.Resolvers))].Url
